@@ -243,12 +243,16 @@ func runOracle(c *proto.Corpus, order, ids string, seed uint64, free bool) {
 			// blocks forever (a lock left behind by an earlier call) is an observation and
 			// not a crash of the oracle
 			done := make(chan string, 1)
+			exprCopy := strings.Clone(call.Expr)
 			go func() {
-				o, _, _ := invoke(call.Fn, call.Expr, arg)
+				o, _, _ := invoke(call.Fn, exprCopy, arg)
 				done <- o
 			}()
 			select {
 			case outcome = <-done:
+				if exprCopy != call.Expr {
+					out.ArgMut = append(out.ArgMut, fmt.Sprintf("call %d %s(%q): the bytes of the caller's expression string changed to %q", id, call.Fn, call.Expr, exprCopy))
+				}
 			case <-time.After(hangTimeout):
 				out.IDs = append(out.IDs, id)
 				out.Outcomes = append(out.Outcomes, "hung")
